@@ -2,7 +2,7 @@
 //
 // Exhaustive enumeration on the real object tree (test change builder, chosen letter ids so that every relative id
 // order can be enumerated): honest DAGs are produced by small programs of create(replica, plain|snapshot) and
-// pull(replica <- replica) over two (and, for wider forks, three) creator replicas (a new change's parents are the creator's real heads, its
+// pull(replica <- replica) over two (and, for wider forks, three) creator replicas, plus synthetic DAGs with redundant edges (a new change's parents are the creator's real heads, its
 // snapshot base the creator's real in-memory root); for the final change set every arrival permutation x batch
 // partition x head announcement x reopen point is fed to a fresh tree.
 package c06
@@ -315,6 +315,85 @@ type feeding struct {
 type dagCase struct {
 	Prog []step   `json:"prog"`
 	Ids  []string `json:"ids"`
+	// Parents, if set, describes a synthetic DAG instead of a program: Parents[i] lists the parents of change i as
+	// indices into the creation order (-1 = the tree root); any non-empty set of earlier changes is allowed, also
+	// redundant edges (a parent that is an ancestor of another parent) that honest clients never produce
+	Parents [][]int `json:"parents,omitempty"`
+}
+
+// synthDag builds the changes of a synthetic DAG (plain changes on the tree root's snapshot).
+func (e *env) synthDag(parents [][]int, ids []string) (out []chg) {
+	for i, ps := range parents {
+		var pids []string
+		for _, pi := range ps {
+			if pi < 0 {
+				pids = append(pids, e.root.Id)
+			} else {
+				pids = append(pids, ids[pi])
+			}
+		}
+		raw := e.creator.CreateRaw(ids[i], e.acl.Head().Id, e.root.Id, false, pids...)
+		out = append(out, chg{Id: ids[i], Parents: pids, Base: e.root.Id, Path: []string{e.root.Id}, raw: raw})
+	}
+	return
+}
+
+// parentSets enumerates, for n changes, every assignment of a non-empty parent set among {root, earlier changes};
+// onlyRedundant keeps the assignments in which some change names a parent that is an ancestor of another of its parents.
+func parentSets(n int, onlyRedundant bool) (out [][][]int) {
+	var rec func(i int, cur [][]int)
+	rec = func(i int, cur [][]int) {
+		if i == n {
+			if !onlyRedundant || hasRedundantEdge(cur) {
+				cp := make([][]int, n)
+				for k := range cur {
+					cp[k] = append([]int{}, cur[k]...)
+				}
+				out = append(out, cp)
+			}
+			return
+		}
+		cand := []int{-1}
+		for k := 0; k < i; k++ {
+			cand = append(cand, k)
+		}
+		for mask := 1; mask < 1<<len(cand); mask++ {
+			var ps []int
+			for b, x := range cand {
+				if mask&(1<<b) != 0 {
+					ps = append(ps, x)
+				}
+			}
+			rec(i+1, append(cur, ps))
+		}
+	}
+	rec(0, nil)
+	return
+}
+
+func hasRedundantEdge(parents [][]int) bool {
+	anc := make([]map[int]bool, len(parents))
+	for i, ps := range parents {
+		anc[i] = map[int]bool{}
+		for _, p := range ps {
+			anc[i][p] = true
+			if p >= 0 {
+				for a := range anc[p] {
+					anc[i][a] = true
+				}
+			}
+		}
+	}
+	for _, ps := range parents {
+		for _, p := range ps {
+			for _, q := range ps {
+				if p != q && q >= 0 && anc[q][p] {
+					return true
+				}
+			}
+		}
+	}
+	return false
 }
 
 // checkDag feeds the change set in every way and returns findings.
@@ -323,7 +402,11 @@ func (e *env) checkDag(c *vk.Ctx, cs []chg, dc dagCase) (out []finding) {
 	// intermediate reopen points (those are enumerated for all DAGs with <= 3 changes, and for everything in thorough)
 	lite := c.Quick() && len(cs) >= 4
 	add := func(f feeding, key, format string, a ...any) {
-		out = append(out, finding{key, fmt.Sprintf("program [%s] ids %v, feeding %+v: ", progStr(dc.Prog), dc.Ids, f) + fmt.Sprintf(format, a...)})
+		origin := fmt.Sprintf("program [%s]", progStr(dc.Prog))
+		if dc.Parents != nil {
+			origin = fmt.Sprintf("synthetic DAG with parents %v (-1 = root)", dc.Parents)
+		}
+		out = append(out, finding{key, fmt.Sprintf("%s ids %v, feeding %+v: ", origin, dc.Ids, f) + fmt.Sprintf(format, a...)})
 	}
 	parents := map[string][]string{}
 	byId := map[string]chg{}
@@ -680,10 +763,15 @@ func body(c *vk.Ctx) {
 			c.Broken("replay: %v", err)
 			return
 		}
-		cs, ok := e.runProgram(rf.Case.Prog, rf.Case.Ids)
-		if !ok {
-			c.Broken("replay: program no longer runs")
-			return
+		var cs []chg
+		if rf.Case.Parents != nil {
+			cs = e.synthDag(rf.Case.Parents, rf.Case.Ids)
+		} else {
+			var ok bool
+			if cs, ok = e.runProgram(rf.Case.Prog, rf.Case.Ids); !ok {
+				c.Broken("replay: program no longer runs")
+				return
+			}
 		}
 		c.DistinctH("states", 1)
 		for _, fd := range e.checkDag(c, cs, rf.Case) {
@@ -766,5 +854,41 @@ func body(c *vk.Ctx) {
 			}
 		}
 	}
+	// synthetic DAGs with redundant edges (a change naming a parent that is an ancestor of another of its parents):
+	// never produced by honest clients, but "all DAGs" are quantified over and peers decide what they send
+	synthN := vk.Pick(c, 3, 4)
+	c.Bound("max_changes_synthetic_redundant_edges", synthN)
+	nSynth := 0
+	for n := 2; n <= synthN; n++ {
+		for _, ps := range parentSets(n, true) {
+			for _, perm := range permutations(n) {
+				ids := make([]string, n)
+				for i, pi := range perm {
+					ids[i] = letters[pi]
+				}
+				cs := e.synthDag(ps, ids)
+				k := "synthetic:" + dagKey(cs)
+				if seen[k] {
+					continue
+				}
+				seen[k] = true
+				idx++
+				if !c.Mine(idx) {
+					continue
+				}
+				if c.TimeUp() {
+					c.NotExhaustive("deadline while enumerating synthetic DAGs")
+					return
+				}
+				c.Distinct("states", k)
+				nSynth++
+				dc := dagCase{Ids: ids, Parents: ps}
+				for _, fd := range e.checkDag(c, cs, dc) {
+					c.Violation(fd.key, fd.what, dc)
+				}
+			}
+		}
+	}
+	c.Count("synthetic_dags", int64(nSynth))
 	c.Require(forks > 0 && snaps > 0, "vacuity: no DAG with a fork (%d) or no DAG with a snapshot (%d) in this shard", forks, snaps)
 }
